@@ -6,6 +6,7 @@
    implementation by the oracle. *)
 From Coq Require Import List Bool NArith String.
 From PC Require Import Base.Result Model.Generic Model.Marker Model.MarkerAlg Proofs.MarkerProofs Proofs.MarkerAlgProofs Proofs.StringClass Proofs.ExtraClass.
+From PC Require Import Model.Pep440 Spec.Pep440Spec Model.VConstraint Proofs.DiffUnion Proofs.Closure Proofs.Pep440RoundTrip Proofs.ClauseText Proofs.ConstraintText Proofs.VersionClass.
 Import ListNotations.
 
 Theorem C17_only_weakens : forall E names m, beval E m = true -> beval E (only_raw names m) = true.
@@ -33,3 +34,11 @@ Theorem C17_only_string_extra_markers : forall E extras, e_extras E = Some extra
   only fuel st names m = Ok r -> (beval E m = true -> beval E r = true) /\ G (BR E) r.
 Proof. exact both_only. Qed.
 Print Assumptions C17_only_string_extra_markers.
+
+(* ... and for markers that also hold comparison clauses of python_full_version *)
+Theorem C17_only_string_extra_version_markers : forall E extras, e_extras E = Some extras ->
+  forall ev, printable ev = true -> lookup pfv (e_vars E) = Some (to_string ev) ->
+  forall B, mutual B -> (forall v, In v B -> normal v = true /\ pad_ok v = true /\ is_local v = false) -> regB B (reparsed ev) = true ->
+  forall fuel st names m r, G (AR E B) m -> only fuel st names m = Ok r -> (beval E m = true -> beval E r = true) /\ G (AR E B) r.
+Proof. exact all_only. Qed.
+Print Assumptions C17_only_string_extra_version_markers.
